@@ -186,14 +186,28 @@ def check(P, R):
     ok = isinstance(lp.iter, ast.Name) and in_order(lp.iter.id, g.nodes_for(lp)[0])
     R.ob('C02.b', gi, lp, ok, text=f'for name in {short(lp.iter)}', detail='' if ok else
          'the candidates are not iterated in the order given (sorted / set / reversed / re-bound)')
-    rets = [n for st in lp.body for n in walk_shallow(st) if isinstance(n, ast.Return)]
+    rets = [n for n in walk_shallow(gi.node) if isinstance(n, ast.Return) and n.value is not None and not is_const(n.value, None)]
     ok = bool(rets)
+    tname = lp.target.id if isinstance(lp.target, ast.Name) else ''
+    head_ = g.nodes_for(lp)[0]
     for r in rets:
         rn = g.node_of_stmt(r)[0]
         cl = rd.closure_nodes(r.value, rn)
-        ok = ok and any(isinstance(x, ast.Call) and call_attr(x) == 'get' and dotted(x.func.value) == 'self._methods'
-                        and x.args and isinstance(x.args[0], ast.Name) and x.args[0].id == (lp.target.id if isinstance(lp.target, ast.Name) else '')
-                        for x in cl) or any(isinstance(x, ast.Subscript) and dotted(x.value) == 'self._methods' for x in cl)
+        ok = ok and (any(isinstance(x, ast.Call) and call_attr(x) == 'get' and dotted(x.func.value) == 'self._methods'
+                         and x.args and isinstance(x.args[0], ast.Name) and x.args[0].id == tname for x in cl)
+                     or any(isinstance(x, ast.Subscript) and dotted(x.value) == 'self._methods' for x in cl))
+    # the first hit ends the search: from the truthy edge of the test on the looked-up entry the loop head is not reached again
+    hits = []
+    for tn in g.nodes:
+        if tn.kind == 'test' and T._inside(tn.ast, lp.body):
+            t_, neg_ = strip_not(tn.ast)
+            if isinstance(t_, ast.Name) and any(d.value is not None and isinstance(d.value, ast.Call) and call_attr(d.value) == 'get'
+                                                for d in rd.at(tn, t_.id)):
+                hits.append((tn, 'false' if neg_ else 'true'))
+            cp_ = compare_parts(t_)
+            if cp_ and cp_[1] in (ast.IsNot, ast.Is) and is_const(cp_[2], None) and isinstance(cp_[0], ast.Name):
+                hits.append((tn, ('true' if cp_[1] is ast.IsNot else 'false') if not neg_ else ('false' if cp_[1] is ast.IsNot else 'true')))
+    ok = ok and bool(hits) and all(not g.can_reach(s_, head_) for (tn, lab) in hits for s_ in T.succ_by_label(tn, lab))
     R.ob('C02.b', gi, rets[0] if rets else lp, ok, text='return self._methods[<candidate>] on the first hit', detail='' if ok else
          'the loop does not return the table entry of the first registered candidate')
     raises = [n for n in walk_shallow(gi.node) if isinstance(n, ast.Raise)]
@@ -225,7 +239,13 @@ def check(P, R):
             if cf.module.name.endswith('server_adapters'):
                 continue
             for c in walk_shallow(cf.node):
-                if isinstance(c, ast.Call) and call_attr(c) == fn.name and isinstance(c.func, ast.Attribute):
+                via_alias = False
+                if isinstance(c, ast.Call) and isinstance(c.func, ast.Name) and not isinstance(cf.node, ast.Lambda) and cf.rd.is_local(c.func.id):
+                    # register = route.set_method if overwrite else route.add_method; register(methods, ...)
+                    ns_ = cf.cfg.node_of_stmt(c)
+                    via_alias = bool(ns_) and any(isinstance(x, ast.Attribute) and x.attr == fn.name
+                                                  for x in cf.rd.closure_nodes(c.func, ns_[0], follow_mut=False))
+                if isinstance(c, ast.Call) and ((call_attr(c) == fn.name and isinstance(c.func, ast.Attribute)) or via_alias):
                     # self.<name>(...) / route.<name>(...): positional index shifts by one for bound calls
                     ai = idx - 1
                     a = c.args[ai] if 0 <= ai < len(c.args) else None
@@ -238,10 +258,11 @@ def check(P, R):
         memo[key] = res
         return res
 
-    sm = P.func(f'{RR}:Route._set_methods')
-    stores = [st for st in walk_shallow(sm.node) if isinstance(st, ast.Assign) and any(
-        isinstance(t, ast.Subscript) and dotted(t.value) == 'self._methods' for t in st.targets)]
-    R.require(stores, 'Route._set_methods: no store into self._methods')
+    sm = P.maybe_func(f'{RR}:Route._set_methods')
+    if sm is not None:
+        stores = [st for st in walk_shallow(sm.node) if isinstance(st, ast.Assign) and any(
+            isinstance(t, ast.Subscript) and dotted(t.value) == 'self._methods' for t in st.targets)]
+        R.require(stores, 'Route._set_methods: no store into self._methods')
     # all writers of _methods in the package
     writers = []
     for wf in P.all_funcs():
@@ -259,7 +280,10 @@ def check(P, R):
     # the two registration entry points reach _set_methods
     for name in ('set_method', 'add_method'):
         mf = P.func(f'{RR}:Route.{name}')
-        calls_ = [c for c in walk_shallow(mf.node) if isinstance(c, ast.Call) and dotted(c.func) == 'self._set_methods']
+        calls_ = T.calls_to(mf, 'self._set_methods')
+        if sm is None:
+            # the shared helper was merged into the entry points: each must store into the table itself (checked as a writer above)
+            calls_ = [st for (wf, st) in writers if wf is mf]
         R.ob('C02.c', mf, calls_[0] if calls_ else mf.node, bool(calls_), text=f'{name} -> _set_methods', detail='' if calls_ else
              f'{name} does not register through _set_methods', nontrivial=False)
     pm = P.func('ombott.request_pkg.props_mixin:PropsMixin.method')
@@ -267,8 +291,11 @@ def check(P, R):
     ok = bool(rets) and all(isinstance(r.value, ast.Call) and call_attr(r.value) == 'upper' for r in rets)
     R.ob('C02.c', pm, rets[0] if rets else pm.node, ok, text='request.method upper-cased', detail='' if ok else 'the request verb is not upper-cased')
     h = P.func(f'{OM}:Ombott._handle')
-    tc = [c for c in walk_shallow(h.node) if isinstance(c, ast.Call) and dotted(c.func) == 'self.to_route']
+    tc = T.calls_to(h, 'self.to_route')
     def _req_attr(e, attr, at):
+        e = T.expand(h, e, at)
+        if dotted(e) == f'self.request.{attr}':
+            return True
         if not (isinstance(e, ast.Attribute) and e.attr == attr):
             return False
         cl = h.rd.closure_nodes(e.value, at)
@@ -284,7 +311,7 @@ def check(P, R):
     rs = P.func(f'{RR}:RadiRouter.resolve')
     g, rd = rs.cfg, rs.rd
     rets = [n for n in walk_shallow(rs.node) if isinstance(n, ast.Return) and n.value is not None]
-    get_calls = [c for c in walk_shallow(rs.node) if isinstance(c, ast.Call) and dotted(c.func) == 'self.radidict.get']
+    get_calls = T.calls_to(rs, 'self.radidict.get')
     R.require(get_calls, 'resolve: no radidict.get call')
     route_name = None
     st = stmt_of(get_calls[0])
